@@ -66,8 +66,10 @@ class Built:
         self.dirty = dirty
 
     def info(self):
-        return {"binary_profile": self.profile, "hook": self.hooks, "repo_head": self.repo_head,
-                "repo_dirty_digest": self.dirty}
+        d = {"binary_profile": self.profile, "hook": self.hooks, "repo_head": self.repo_head,
+             "repo_dirty_digest": self.dirty}
+        d.update(getattr(self, "probe", {}))
+        return d
 
 
 def repo_state():
@@ -123,7 +125,34 @@ def build_repo(profile="release", want_hooks=True, overflow_checks=False):
         shutil.copy2(src, dst)
     import atexit
     atexit.register(lambda: os.path.exists(dst) and os.unlink(dst))
-    return Built(dst, hooks, profile + ("+overflow-checks" if overflow_checks else ""), head, dirty)
+    b = Built(dst, hooks, profile + ("+overflow-checks" if overflow_checks else ""), head, dirty)
+    probe_spellings(b)
+    return b
+
+
+# Spellings the property texts do not settle (DESIGN 4.3): whether the tree under test treats them as log statements is
+# measured once per check run on a probe file that holds the ordinary spelling too; the workloads then either use them
+# (and hold the tool to what it showed on the probe) or leave them out. True until measured.
+SPACED_BANG = True
+
+
+def probe_spellings(built):
+    global SPACED_BANG
+    src = ('fn probe() {\n    info!("ordinary spelling");\n    info !("space before the bang");\n'
+           '    info /* c */ !("comment before the bang");\n    info\n        !("name and bang on different lines");\n'
+           '    info! ("space after the bang");\n}\n')
+    try:
+        with Box(tag="probe") as box:
+            box.write("src/probe.rs", src)
+            cfg = box.write("Breadlog.yaml", make_config(use_cache=False))
+            r = run_breadlog(built, box, cfg, check=True, timeout=60)
+        lines = sorted(l for _, l, _ in r.missing())
+    except Exception:
+        return
+    built.probe = {"probe_missing_lines": lines}
+    if 2 in lines:                      # the ordinary spelling was seen: the probe ran
+        SPACED_BANG = all(x in lines for x in (3, 4, 6, 7))
+        built.probe["layout_between_name_and_bang_recognised"] = SPACED_BANG
 
 
 # --------------------------------------------------------------------------- sandbox
@@ -321,14 +350,14 @@ def parse_shim(path):
 
 def run_breadlog(built, box, config, check=False, cwd=None, rules=None, shim=False, trace=False,
                  strace=False, timeout=120, env_extra=None, tmpdir=None, cfg_arg=None, async_signal=None, stdio_ops=False, stdin_tty=False,
-                 argv_override=None):
+                 argv_override=None, wrap=None, read_ops=False, nofile=None, on_first_fire=None):
     """Run the real binary once. config: absolute path of the yaml (cfg_arg overrides what is passed)."""
     argv = [built.path, "-c", cfg_arg or config]
     if check:
         argv.append("--check")
     if argv_override is not None:
         argv = [built.path] + list(argv_override)
-    env = {"PATH": "/usr/bin:/bin", "RUST_BACKTRACE": "0", "TMPDIR": tmpdir or box.tmp, "HOME": box.outside,
+    env = {"PATH": "/usr/bin:/bin", "RUST_BACKTRACE": "0", "TMPDIR": box.tmp if tmpdir is None else tmpdir, "HOME": box.outside,
            "LANG": "C.UTF-8"}
     rec = Rec()
     rec.rules = rules
@@ -338,33 +367,64 @@ def run_breadlog(built, box, config, check=False, cwd=None, rules=None, shim=Fal
         shimlog = box.logpath("shim")
         env["LD_PRELOAD"] = SHIM_SO
         env["VF_SHIM_ROOT"] = box.root
-        if tmpdir and not tmpdir.startswith(box.root + "/"):
+        if tmpdir and os.path.isabs(tmpdir) and not tmpdir.startswith(box.root + "/"):
             env["VF_SHIM_ROOT2"] = tmpdir
         env["VF_SHIM_LOG"] = shimlog
         if rules:
             env["VF_SHIM_RULES"] = rules
         if stdio_ops:
             env["VF_SHIM_STDIO"] = "1"
+        if read_ops:
+            env["VF_SHIM_READS"] = "1"
     if trace and built.hooks:
         tracelog = box.logpath("trace")
         env["BREADLOG_VERIF_TRACE"] = tracelog
     if env_extra:
         env.update(env_extra)
-    full = argv
+    full = (list(wrap) + argv) if wrap else argv
     if strace:
         stracelog = box.logpath("strace")
-        full = ["strace", "-f", "-y", "-qq", "-s", "0", "-o", stracelog] + argv
+        full = ["strace", "-f", "-y", "-qq", "-s", "0", "-o", stracelog] + full
     t0 = time.time()
     r0 = resource.getrusage(resource.RUSAGE_CHILDREN)
     pty_fds = None
     if stdin_tty:
         import pty
         pty_fds = pty.openpty()      # an interactive invocation: stdin is a terminal
+    pre = None
+    if nofile:
+        # a low descriptor limit for the child only (RLIMIT_NOFILE): descriptors that are not given back show up after few files
+        def pre():
+            resource.setrlimit(resource.RLIMIT_NOFILE, (nofile, nofile))
     p = subprocess.Popen(full, cwd=cwd or box.proj, env=env, stdout=subprocess.PIPE, stderr=subprocess.PIPE,
-                         stdin=(pty_fds[1] if pty_fds else subprocess.DEVNULL))
+                         stdin=(pty_fds[1] if pty_fds else subprocess.DEVNULL), preexec_fn=pre)
     if pty_fds:
         os.close(pty_fds[1])
     rec.timed_out = False
+    watcher = None
+    if on_first_fire and shimlog:
+        # "another process acts while breadlog is at operation k": the callable runs as soon as the shim log shows that an
+        # injected action (typically a delay) has fired - deterministic in terms of operations, not of wall-clock time
+        import threading
+
+        def _watch():
+            pos = 0
+            while p.poll() is None:
+                try:
+                    with open(shimlog, "r", errors="replace") as f:
+                        f.seek(pos)
+                        chunk = f.read()
+                        pos = f.tell()
+                except OSError:
+                    chunk = ""
+                if "\nF " in "\n" + chunk:
+                    try:
+                        on_first_fire()
+                    finally:
+                        return
+                time.sleep(0.003)
+        watcher = threading.Thread(target=_watch, daemon=True)
+        watcher.start()
     try:
         if async_signal:
             delay, signo = async_signal
